@@ -28,7 +28,7 @@ COMPONENTS = {
     "real": ["buidl.psbt.PSBT create/update/parse/serialize/validate/sign/sign_with_private_keys/combine/finalize/final_tx", "PSBT.describe_basic_multisig and helpers", "buidl.psbt_helper.create_multisig_psbt (p2sh wallets)",
              "NamedHDPublicKey/NamedPublicKey, HDPrivateKey.traverse, HDPublicKey.traverse", "Tx.verify / verify_input on the extracted transaction"],
     "stub": ["wallet keys, funding transactions and expected scripts (ref/wallet, ref/txmodel)", "transport: explicit delivery schedule with duplication, staleness, loss, in-flight corruption, cross-talk",
-             "node crash/restart (durable = last stored serialisation)", "Byzantine signer (foreign-key / wrong-transaction signatures) and Byzantine coordinator (tampering catalogue)"],
+             "node crash/restart (durable = last stored serialisation)", "Byzantine signer (foreign-key / wrong-transaction signatures) and Byzantine coordinator (tampering catalogue)", "third-party creators/finalisers (both UTXO records, previous transaction only, no empty final-scriptSig record), built from the library's bytes with ref/psbtmap"],
 }
 LEVEL = {"C10": "exploration", "C11": "exploration"}
 RULE = {
